@@ -8,8 +8,34 @@ namespace ForML.Compose
 
 /-! ### continuing a trunk: what a body adds after the scope has been expanded -/
 
-theorem TrunkOk.step {g g1 g2 : Graph} {W W1 W2 : World} {left : Trunk} {xa xt xl : Val} {r : Nat} {s : Sem}
-    (h1 : TrunkOk g g1 W W1 left xa xt xl r s)
+/-- the structural obligations of a body for the nodes it adds (those of the scope are inherited) -/
+structure StepOk (full : Prop) (g g1 g2 : Graph) (W2 : World) (r : Nat) (head : Nat) (t' : Trunk) : Prop where
+  wired : Wired g2
+  tge : g.next ≤ t'.apply.tail ∧ g.next ≤ t'.train.tail ∧ g.next ≤ t'.label.tail
+  rank : ∀ n, g1.next ≤ n → W2.live n → W2.h n < r + (g2.next - g.next)
+  reg : full → ∀ n, g1.next ≤ n → Reach g2 head n → n ≠ head →
+    W2.live n ∧ ∀ k q, g2.inputOf n k = some q → Reach g2 head q.node
+  regTail : full → Reach g2 head t'.apply.tail
+  sep : full → ¬ Reach g2 head t'.train.tail ∧ ¬ Reach g2 head t'.label.tail
+  closed : full → ∀ s k q, g1.next ≤ s → g2.inputOf s k = some q → g.next ≤ q.node
+
+/-- a reachable node with a single input has all its inputs reachable -/
+theorem reg_unary {g : Graph} {a n : Nat} {p : PubRef} (hin : ∀ k q, g.inputOf n k = some q → q = p)
+    (hre : Reach g a n) (hne : n ≠ a) : ∀ k q, g.inputOf n k = some q → Reach g a q.node := by
+  intro k q hq
+  rcases hre.inv with h | ⟨k0, q0, hq0, hr0⟩
+  · exact absurd h hne
+  · rw [hin k q hq, ← hin k0 q0 hq0]; exact hr0
+
+/-- a node without inputs is reachable only from itself -/
+theorem not_reach_of_no_input {g : Graph} {a n : Nat} (hin : ∀ k, g.inputOf n k = none) (hne : n ≠ a) : ¬ Reach g a n := by
+  intro hre
+  rcases hre.inv with h | ⟨k, q, hq, _⟩
+  · exact hne h
+  · rw [hin k] at hq; cases hq
+
+theorem TrunkOk.step {full : Prop} {g g1 g2 : Graph} {W W1 W2 : World} {left : Trunk} {xa xt xl : Val} {r : Nat} {s : Sem}
+    (h1 : TrunkOk full g g1 W W1 left xa xt xl r s)
     (inv2 : Inv g2 W2) (f2 : Frame g1 g2) (a2 : Agree g1.next W1 W2)
     (noOpen : ∀ n, g1.next ≤ n → W2.live n → ¬ g2.isOpen n)
     (t' : Trunk) (hha : t'.apply.head = left.apply.head) (hht : t'.train.head = left.train.head)
@@ -19,16 +45,20 @@ theorem TrunkOk.step {g g1 g2 : Graph} {W W1 W2 : World} {left : Trunk} {xa xt x
     (tl : W2.live t'.label.tail ∧ W2.σ ⟨t'.label.tail, 0⟩ = s'.label)
     (trains : ∃ ts, g2.trains = g1.trains ++ ts ∧ (∀ t ∈ ts, W2.live t.train.node ∧ W2.live t.label.node) ∧
       s'.states = s.states ++ ts.map (trainedUnder W2))
-    (fresh2 : ∀ n, g1.next ≤ n → W2.live n → ∀ gid a i o, g2.kindOf n = some (.worker gid a i o) → g1.next ≤ gid) :
-    TrunkOk g g2 W W2 t' xa xt xl r s' := by
+    (fresh2 : ∀ n, g1.next ≤ n → W2.live n → ∀ gid a i o, g2.kindOf n = some (.worker gid a i o) → g1.next ≤ gid)
+    (so : StepOk full g g1 g2 W2 r left.apply.head t') :
+    TrunkOk full g g2 W W2 t' xa xt xl r s' := by
   have hlt1 : ∀ n, W1.live n → n < g1.next := fun n hn => (h1.inv.liveLt n hn).1
   have head : ∀ (h : Nat) (x : Val), HeadOk g g1 W1 h x r → HeadOk g g2 W2 h x r := by
     intro h x hh
     have hlt := hlt1 h hh.live
     obtain ⟨a1, a2', a3⟩ := a2 h hlt
-    exact ⟨hh.ge, (f2.isOpen hlt).mpr hh.isOpen, a1.mpr hh.live, by rw [a2']; exact hh.rank,
-      fun i => by rw [a3 i]; exact hh.val i⟩
-  refine ⟨inv2, h1.frame.trans f2, h1.agree.trans a2 h1.frame.next_le, ?_, ?_, ?_, ?_, ?_, ta, tt, tl, ?_, ?_⟩
+    exact ⟨hh.ge, (f2.isOpen hlt).mpr hh.isOpen, fun k => by rw [f2.input h k hlt]; exact hh.free k, a1.mpr hh.live,
+      by rw [a2']; exact hh.rank, fun i => by rw [a3 i]; exact hh.val i⟩
+  have hgg := h1.frame.next_le
+  have hgg2 := f2.next_le
+  refine ⟨inv2, h1.frame.trans f2, h1.agree.trans a2 h1.frame.next_le, ?_, ?_, ?_, ?_, ?_, ta, tt, tl, ?_, ?_, so.wired,
+    so.tge, ?_, ?_, by rw [hha]; exact so.regTail, by rw [hha]; exact so.sep, ?_⟩
   · rw [hha]; exact head _ _ h1.ha
   · rw [hht]; exact head _ _ h1.ht
   · rw [hhl]; exact head _ _ h1.hl
@@ -60,6 +90,27 @@ theorem TrunkOk.step {g g1 g2 : Graph} {W W1 W2 : World} {left : Trunk} {xa xt x
     · have := fresh2 n (by omega) hl gid a i o hk
       have := h1.frame.next_le
       omega
+  · intro n hn hl
+    by_cases hlt : n < g1.next
+    · have := h1.rank n hn (((a2 n hlt).1).mp hl)
+      rw [(a2 n hlt).2.1]
+      omega
+    · exact so.rank n (by omega) hl
+  · intro hfull n hre hne
+    rw [hha] at hre hne ⊢
+    by_cases hlt : n < g1.next
+    · have hre1 : Reach g1 left.apply.head n := Reach.old f2 h1.wired hlt hre
+      obtain ⟨l1, i1⟩ := h1.reg hfull n hre1 hne
+      refine ⟨((a2 n hlt).1).mpr l1, ?_⟩
+      intro k q hq
+      rw [f2.input n k hlt] at hq
+      exact (i1 k q hq).mono (f2.input_mono h1.inv.bounded)
+    · exact so.reg hfull n (by omega) hre hne
+  · intro hfull s k q hs hq
+    by_cases hlt : s < g1.next
+    · rw [f2.input s k hlt] at hq
+      exact h1.closed hfull s k q hs hq
+    · exact so.closed hfull s k q (by omega) hq
 
 /-! ### `Trunk.extend` -/
 
@@ -89,14 +140,15 @@ macro "glook" "[" ts:Lean.Parser.Tactic.simpLemma,* "]" : tactic =>
 
 /-! ### `payload.Dump` / `payload.Sniff` -/
 
-theorem spec_debug {scope : GraphM Trunk} {S : Scope} (hs : Spec scope S) (a t : Actor) (htr : t.stateful = true) :
-    Spec (composeDebug a t scope) (denoteDebug a t S) := by
-  intro g W xa xt xl r hi hr
-  obtain ⟨left, g1, W1, hrun1, h1⟩ := hs g W xa xt xl r hi hr
+theorem spec_debug {full : Prop} {scope : GraphM Trunk} {S : Scope} (hs : Spec full scope S) (a t : Actor)
+    (htr : t.stateful = true) : Spec full (composeDebug a t scope) (denoteDebug a t S) := by
+  intro g W xa xt xl r hi hw hr
+  obtain ⟨left, g1, W1, hrun1, h1⟩ := hs g W xa xt xl r hi hw hr
   let g2 := g1.bump.bump.pushNode ⟨g1.next, .worker (g1.next + 1) a 1 1⟩
   let g3 := g2.bump.bump.pushNode ⟨g1.next + 2, .worker (g1.next + 3) t 1 1⟩
   let g4 := g3.pushTrain ⟨g1.next + 3, g1.next + 2, t, left.train.publisher, left.label.publisher⟩
   let g5 := g4.pushEdge ⟨g1.next, 0, left.apply.publisher⟩
+  have hgg := h1.frame.next_le
   have hb1 := h1.inv.bounded
   have hk0 : ∀ u, g1.next ≤ u → g1.kindOf u = none := fun u hu => hb1.kindOf_none hu
   have hin0 : ∀ u k, g1.next ≤ u → g1.inputOf u k = none := fun u k hu => hb1.inputOf_none hu k
@@ -109,6 +161,15 @@ theorem spec_debug {scope : GraphM Trunk} {S : Scope} (hs : Spec scope S) (a t :
   have hf4 : Frame g1 g4 := hf3.pushTrain _ (by gnext)
   have hf5 : Frame g1 g5 := hf4.pushEdge _ (Nat.le_refl _)
   have hn5 : g5.next = g1.next + 4 := rfl
+  have hfree : g4.inputOf g1.next 0 = none := by glook [hin0]
+  -- the rank above everything the scope built
+  obtain ⟨R, hR⟩ : ∃ R, R = r + (g1.next - g.next) := ⟨_, rfl⟩
+  have hRle : R ≤ g1.next := by omega
+  have rkA : RefOk W1 left.apply.publisher R :=
+    ⟨h1.ta.1, by rw [hR]; exact h1.rank _ h1.tails_ge.1 h1.ta.1⟩
+  have hw5 : Wired g5 :=
+    ((((h1.wired.bump.bump.pushNode _).bump.bump.pushNode _).pushTrain _).pushEdge _
+      (by have := (h1.inv.liveLt _ h1.ta.1).1; show left.apply.tail < g1.next + 1 + 1 + 1 + 1; omega) hfree)
   -- the run
   have hrun : Run (composeDebug a t scope) g ⟨⟨left.apply.head, g1.next⟩, left.train, left.label⟩ g5 := by
     unfold composeDebug
@@ -118,18 +179,25 @@ theorem spec_debug {scope : GraphM Trunk} {S : Scope} (hs : Spec scope S) (a t :
     · refine run_trunk_extend (run_extendOpt_some _ _ _ ?_) (run_extendOpt_none _ _) (run_extendOpt_none _ _)
       glook [hin0]
   have hnl : ∀ u, g1.next ≤ u → ¬ W1.live u := fun u hu h => by have := (h1.inv.liveLt u h).1; omega
-  have hnlu := hnl
   have hi4 : Inv g4 W1 := h1.inv.ofFrame hf4 hb4
   have hi5 : Inv g5 W1 := hi4.pushEdge_notLive _ (hnl _ (Nat.le_refl _)) (by gnext)
   have hk5 : g5.kindOf g1.next = some (.worker (g1.next + 1) a 1 1) := by
     glook [hk0]
-  have hi6 := hi5.liveWorker g1.next (g1.next + 1) a 1 1 (fun _ => left.apply.publisher) g1.next .none hk5
+  have hin5 : ∀ n k q, g1.next ≤ n → g5.inputOf n k = some q → n = g1.next ∧ q = left.apply.publisher := by
+    intro n k q hn hq
+    have : g5.inputOf n k = if g1.next = n ∧ 0 = k then some left.apply.publisher else none := by
+      glook [hin0 n k hn]
+    rw [this] at hq
+    split at hq
+    · rename_i hc; cases hq; exact ⟨hc.1.symm, rfl⟩
+    · cases hq
+  have hi6 := hi5.liveWorker g1.next (g1.next + 1) a 1 1 (fun _ => left.apply.publisher) R .none hk5
     (hnl _ (Nat.le_refl _)) (by omega)
     (by
       intro k hk
       have : k = 0 := by omega
       subst this
-      refine ⟨?_, h1.ta.1, (h1.inv.liveLt _ h1.ta.1).2⟩
+      refine ⟨?_, rkA⟩
       glook [hin0])
     (by
       unfold StateFor
@@ -137,9 +205,15 @@ theorem spec_debug {scope : GraphM Trunk} {S : Scope} (hs : Spec scope S) (a t :
         glook [htr0]
       simp [this])
   have hne : ∀ q : PubRef, W1.live q.node → q.node ≠ g1.next := fun q hq h => hnl _ (Nat.le_refl _) (h ▸ hq)
+  have reA : full → Reach g5 left.apply.head left.apply.tail := fun hfull => (h1.regTail hfull).mono (hf5.input_mono hb1)
+  have newReach : ∀ n, g1.next ≤ n → Reach g5 left.apply.head n → n ≠ left.apply.head → n = g1.next := by
+    intro n hn hre hne'
+    rcases hre.inv with h | ⟨k, q, hq, _⟩
+    · exact absurd h hne'
+    · exact (hin5 n k q hn hq).1
   refine ⟨_, g5, _, hrun,
     h1.step hi6 hf5 ((Agree.refl _ W1).set _ _ _ (Nat.le_refl _)) ?_
-      ⟨⟨left.apply.head, g1.next⟩, left.train, left.label⟩ rfl rfl rfl _ ?_ ?_ ?_ ?_ ?_⟩
+      ⟨⟨left.apply.head, g1.next⟩, left.train, left.label⟩ rfl rfl rfl _ ?_ ?_ ?_ ?_ ?_ ?_⟩
   · intro u hu hl ho
     rcases hl with hl | hl
     · subst hl
@@ -147,7 +221,7 @@ theorem spec_debug {scope : GraphM Trunk} {S : Scope} (hs : Spec scope S) (a t :
       cases ho.1
     · exact hnl u hu hl
   · refine ⟨Or.inl rfl, ?_⟩
-    show (W1.set g1.next _ g1.next).σ ⟨g1.next, 0⟩ = _
+    show (W1.set g1.next _ R).σ ⟨g1.next, 0⟩ = _
     rw [set_σ_self]
     simp [portVal, denoteDebug, applied, Segment.publisher, h1.ta.2]
   · refine ⟨Or.inr h1.tt.1, ?_⟩
@@ -169,7 +243,33 @@ theorem spec_debug {scope : GraphM Trunk} {S : Scope} (hs : Spec scope S) (a t :
       rw [hk5] at hk
       cases hk
       omega
-    · exact absurd hl (hnlu u hu)
+    · exact absurd hl (hnl u hu)
+  · refine ⟨hw5, ⟨by show g.next ≤ g1.next; omega, h1.tails_ge.2.1, h1.tails_ge.2.2⟩, ?_, ?_, ?_, ?_, ?_⟩
+    · intro n hn hl
+      rcases hl with hl | hl
+      · subst hl
+        show (W1.set g1.next _ R).h g1.next < _
+        rw [set_h_self, hn5, hR]; omega
+      · exact absurd hl (hnl n hn)
+    · intro hfull n hn hre hne'
+      have := newReach n hn hre hne'
+      subst this
+      refine ⟨Or.inl rfl, ?_⟩
+      intro k q hq
+      rw [(hin5 _ k q (Nat.le_refl _) hq).2]
+      exact reA hfull
+    · exact fun hfull => Reach.one (reA hfull) (show g5.inputOf g1.next 0 = some left.apply.publisher by glook [hin0])
+    · intro hfull
+      constructor
+      · intro hre
+        have hlt := (h1.inv.liveLt _ h1.tt.1).1
+        exact (h1.sep hfull).1 (Reach.old hf5 h1.wired hlt hre)
+      · intro hre
+        have hlt := (h1.inv.liveLt _ h1.tl.1).1
+        exact (h1.sep hfull).2 (Reach.old hf5 h1.wired hlt hre)
+    · intro _ s k q hs hq
+      rw [(hin5 s k q hs hq).2]
+      exact h1.tails_ge.1
 
 /-! ### `left >> right` (`Compound.compose`): the scope, then the right side with the left side as its scope -/
 
@@ -185,23 +285,68 @@ def seqSem (S T : Scope) : Scope := fun xa xt xl =>
   let t := T s.apply s.train s.label
   ⟨t.apply, t.train, t.label, s.states ++ t.states⟩
 
-theorem spec_seq {scope m : GraphM Trunk} {S T : Scope} (hs : Spec scope S) (hm : Spec m T) :
-    Spec (do let s ← scope; let t ← m; s.extendTrunk t) (seqSem S T) := by
-  intro g W xa xt xl r hi hr
-  obtain ⟨s, g1, W1, hrun1, h1⟩ := hs g W xa xt xl r hi hr
-  obtain ⟨t, g2, W2, hrun2, h2⟩ := hm g1 W1 (S xa xt xl).apply (S xa xt xl).train (S xa xt xl).label g1.next h1.inv
-    (Nat.le_refl _)
+theorem spec_seq {full : Prop} {scope m : GraphM Trunk} {S T : Scope} (hs : Spec full scope S) (hm : Spec full m T) :
+    Spec full (do let s ← scope; let t ← m; s.extendTrunk t) (seqSem S T) := by
+  intro g W xa xt xl r hi hw hr
+  obtain ⟨s, g1, W1, hrun1, h1⟩ := hs g W xa xt xl r hi hw hr
+  have hgg := h1.frame.next_le
+  obtain ⟨R, hR⟩ : ∃ R, R = r + (g1.next - g.next) := ⟨_, rfl⟩
+  obtain ⟨t, g2, W2, hrun2, h2⟩ := hm g1 W1 (S xa xt xl).apply (S xa xt xl).train (S xa xt xl).label R h1.inv h1.wired
+    (by omega)
+  have hgg2 := h2.frame.next_le
   let g3 := g2.pushEdge ⟨t.apply.head, 0, s.apply.publisher⟩
   let g4 := g3.pushEdge ⟨t.train.head, 0, s.train.publisher⟩
   let g5 := g4.pushEdge ⟨t.label.head, 0, s.label.publisher⟩
   obtain ⟨d1, d2, d3⟩ := h2.distinct
+  have nd1 : ¬ (t.apply.head = t.train.head) := d1
+  have nd2 : ¬ (t.apply.head = t.label.head) := d2
+  have nd3 : ¬ (t.train.head = t.label.head) := d3
+  have nd1' : ¬ (t.train.head = t.apply.head) := fun e => d1 e.symm
+  have nd2' : ¬ (t.label.head = t.apply.head) := fun e => d2 e.symm
+  have nd3' : ¬ (t.label.head = t.train.head) := fun e => d3 e.symm
+  -- inputs in the connected graph
+  have in5 : ∀ u k, g5.inputOf u k =
+      (((g2.inputOf u k).or (if t.apply.head = u ∧ 0 = k then some s.apply.publisher else none)).or
+        (if t.train.head = u ∧ 0 = k then some s.train.publisher else none)).or
+        (if t.label.head = u ∧ 0 = k then some s.label.publisher else none) := by
+    intro u k
+    have e3 : g3.inputOf u k = (g2.inputOf u k).or (if t.apply.head = u ∧ 0 = k then some s.apply.publisher else none) :=
+      inputOf_pushEdge _ _ _ _
+    have e4 : g4.inputOf u k = (g3.inputOf u k).or (if t.train.head = u ∧ 0 = k then some s.train.publisher else none) :=
+      inputOf_pushEdge _ _ _ _
+    have e5 : g5.inputOf u k = (g4.inputOf u k).or (if t.label.head = u ∧ 0 = k then some s.label.publisher else none) :=
+      inputOf_pushEdge _ _ _ _
+    rw [e5, e4, e3]
+  have in5_other : ∀ u k, u ≠ t.apply.head → u ≠ t.train.head → u ≠ t.label.head → g5.inputOf u k = g2.inputOf u k := by
+    intro u k n1 n2 n3
+    have c1 : ¬ (t.apply.head = u ∧ 0 = k) := fun h => n1 h.1.symm
+    have c2 : ¬ (t.train.head = u ∧ 0 = k) := fun h => n2 h.1.symm
+    have c3 : ¬ (t.label.head = u ∧ 0 = k) := fun h => n3 h.1.symm
+    rw [in5]; simp [c1, c2, c3]
+  have in5_a : ∀ k q, g5.inputOf t.apply.head k = some q → q = s.apply.publisher := by
+    intro k q hq
+    rw [in5, h2.ha.free k] at hq
+    by_cases hk : 0 = k
+    · subst hk; simp [nd1', nd2'] at hq; exact hq.symm
+    · simp [hk] at hq
+  have in5_t : ∀ k q, g5.inputOf t.train.head k = some q → q = s.train.publisher := by
+    intro k q hq
+    rw [in5, h2.ht.free k] at hq
+    by_cases hk : 0 = k
+    · subst hk; simp [nd1, nd3'] at hq; exact hq.symm
+    · simp [hk] at hq
+  have in5_l : ∀ k q, g5.inputOf t.label.head k = some q → q = s.label.publisher := by
+    intro k q hq
+    rw [in5, h2.hl.free k] at hq
+    by_cases hk : 0 = k
+    · subst hk; simp [nd2, nd3] at hq; exact hq.symm
+    · simp [hk] at hq
+  have in5_a0 : g5.inputOf t.apply.head 0 = some s.apply.publisher := by
+    rw [in5, h2.ha.free 0]; simp
   have ho3 : g3.inputOf t.train.head 0 = none := by
-    have : ¬ (t.apply.head = t.train.head) := d1
-    glook [h2.ht.isOpen.2, this]
+    glook [h2.ht.isOpen.2, nd1]
   have ho4 : g4.inputOf t.label.head 0 = none := by
-    have h1' : ¬ (t.apply.head = t.label.head) := d2
-    have h2' : ¬ (t.train.head = t.label.head) := d3
-    glook [h2.hl.isOpen.2, h1', h2']
+    glook [h2.hl.isOpen.2, nd2, nd3]
   have hrun : Run (do let s ← scope; let t ← m; s.extendTrunk t) g
       ⟨⟨s.apply.head, t.apply.tail⟩, ⟨s.train.head, t.train.tail⟩, ⟨s.label.head, t.label.tail⟩⟩ g5 := by
     refine Run.bind hrun1 (Run.bind hrun2 ?_)
@@ -210,14 +355,14 @@ theorem spec_seq {scope m : GraphM Trunk} {S T : Scope} (hs : Spec scope S) (hm 
       (run_extendOpt_seg _ _ _ ho4)
   -- the three tails of `s` seen from `W2`
   have hlt1 : ∀ n, W1.live n → n < g1.next := fun n hn => (h1.inv.liveLt n hn).1
-  have tail : ∀ (u : Nat) (v : Val), W1.live u → W1.σ ⟨u, 0⟩ = v →
-      RefOk W2 ⟨u, 0⟩ g1.next ∧ W2.σ ⟨u, 0⟩ = v := by
-    intro u v hl hv
+  have tail : ∀ (u : Nat) (v : Val), g.next ≤ u → W1.live u → W1.σ ⟨u, 0⟩ = v →
+      RefOk W2 ⟨u, 0⟩ R ∧ W2.σ ⟨u, 0⟩ = v := by
+    intro u v hu hl hv
     obtain ⟨a1, a2, a3⟩ := h2.agree u (hlt1 u hl)
-    exact ⟨⟨a1.mpr hl, by rw [a2]; exact (h1.inv.liveLt u hl).2⟩, by rw [a3 0]; exact hv⟩
-  obtain ⟨ra, va⟩ := tail _ _ h1.ta.1 h1.ta.2
-  obtain ⟨rt, vt⟩ := tail _ _ h1.tt.1 h1.tt.2
-  obtain ⟨rl, vl⟩ := tail _ _ h1.tl.1 h1.tl.2
+    exact ⟨⟨a1.mpr hl, by rw [a2, hR]; exact h1.rank u hu hl⟩, by rw [a3 0]; exact hv⟩
+  obtain ⟨ra, va⟩ := tail _ _ h1.tails_ge.1 h1.ta.1 h1.ta.2
+  obtain ⟨rt, vt⟩ := tail _ _ h1.tails_ge.2.1 h1.tt.1 h1.tt.2
+  obtain ⟨rl, vl⟩ := tail _ _ h1.tails_ge.2.2 h1.tl.1 h1.tl.2
   have hi3 : Inv g3 W2 := h2.inv.bindFuture _ _ h2.ha.live h2.ha.isOpen (by rw [h2.ha.rank]; exact ra)
     (fun i => by rw [h2.ha.val i]; exact va.symm)
   have hi4 : Inv g4 W2 := hi3.bindFuture _ _ h2.ht.live ⟨h2.ht.isOpen.1, ho3⟩ (by rw [h2.ht.rank]; exact rt)
@@ -225,9 +370,53 @@ theorem spec_seq {scope m : GraphM Trunk} {S T : Scope} (hs : Spec scope S) (hm 
   have hi5 : Inv g5 W2 := hi4.bindFuture _ _ h2.hl.live ⟨h2.hl.isOpen.1, ho4⟩ (by rw [h2.hl.rank]; exact rl)
     (fun i => by rw [h2.hl.val i]; exact vl.symm)
   have hf5 : Frame g1 g5 := ((h2.frame.pushEdge _ h2.ha.ge).pushEdge _ h2.ht.ge).pushEdge _ h2.hl.ge
+  have hw5 : Wired g5 :=
+    ((h2.wired.pushEdge _ (by have := hlt1 _ h1.ta.1; show s.apply.tail < g2.next; omega) h2.ha.isOpen.2).pushEdge _
+      (by have := hlt1 _ h1.tt.1; show s.train.tail < g2.next; omega) ho3).pushEdge _
+      (by have := hlt1 _ h1.tl.1; show s.label.tail < g2.next; omega) ho4
+  -- reachability from the head of `s` in the connected graph: the old part, or the apply region of `t`
+  have mono25 : ∀ u k q, g2.inputOf u k = some q → g5.inputOf u k = some q := by
+    intro u k q hq; rw [in5, hq]; rfl
+  have reS : ∀ n, Reach g1 s.apply.head n → Reach g5 s.apply.head n := fun n h => h.mono (hf5.input_mono h1.inv.bounded)
+  have reHead : full → Reach g5 s.apply.head t.apply.head := fun hfull => Reach.one (reS _ (h1.regTail hfull)) in5_a0
+  have reT : full → ∀ n, Reach g2 t.apply.head n → Reach g5 s.apply.head n :=
+    fun hfull n h => (reHead hfull).trans (h.mono mono25)
+  have split : full → ∀ n, Reach g5 s.apply.head n →
+      (n < g1.next ∧ Reach g1 s.apply.head n) ∨ (g1.next ≤ n ∧ Reach g2 t.apply.head n) := by
+    intro hfull n hre
+    induction hre with
+    | refl => exact Or.inl ⟨hlt1 _ h1.ha.live, Reach.refl⟩
+    | step hp he ih =>
+      rename_i p u k i
+      by_cases hu : u < g1.next
+      · rw [hf5.input u k hu] at he
+        have hp' := h1.wired.pub_lt he
+        rcases ih with ⟨_, ih⟩ | ⟨ih, _⟩
+        · exact Or.inl ⟨hu, Reach.step ih he⟩
+        · simp at hp'; omega
+      · refine Or.inr ⟨by omega, ?_⟩
+        by_cases ha : u = t.apply.head
+        · rw [ha]; exact Reach.refl
+        · by_cases ht' : u = t.train.head
+          · have := in5_t k _ (ht' ▸ he)
+            have hpe : p = s.train.tail := by cases this; rfl
+            rcases ih with ⟨_, ih⟩ | ⟨ih, _⟩
+            · exact absurd (hpe ▸ ih) (h1.sep hfull).1
+            · have := hlt1 _ h1.tt.1; omega
+          · by_cases hl' : u = t.label.head
+            · have := in5_l k _ (hl' ▸ he)
+              have hpe : p = s.label.tail := by cases this; rfl
+              rcases ih with ⟨_, ih⟩ | ⟨ih, _⟩
+              · exact absurd (hpe ▸ ih) (h1.sep hfull).2
+              · have := hlt1 _ h1.tl.1; omega
+            · rw [in5_other u k ha ht' hl'] at he
+              have hpn := h2.closed hfull u k _ (by omega) he
+              rcases ih with ⟨ih, _⟩ | ⟨_, ih⟩
+              · simp at hpn; omega
+              · exact Reach.step ih he
   refine ⟨_, g5, W2, hrun, h1.step hi5 hf5 h2.agree ?_
     ⟨⟨s.apply.head, t.apply.tail⟩, ⟨s.train.head, t.train.tail⟩, ⟨s.label.head, t.label.tail⟩⟩ rfl rfl rfl
-    (seqSem S T xa xt xl) h2.ta h2.tt h2.tl ?_ ?_⟩
+    (seqSem S T xa xt xl) h2.ta h2.tt h2.tl ?_ ?_ ?_⟩
   · intro n hn hl ho
     -- an open node of `g5` is open in `g2`, hence one of the heads of `t` — which are bound in `g5`
     have hk : g2.kindOf n = some .future := ho.1
@@ -235,27 +424,68 @@ theorem spec_seq {scope m : GraphM Trunk} {S T : Scope} (hs : Spec scope S) (hm 
     have hin2 : g2.inputOf n 0 = none := by
       cases h : g2.inputOf n 0 with
       | none => rfl
-      | some q =>
-        have : g5.inputOf n 0 = some q := by glook [h]
-        rw [this] at hin5; cases hin5
+      | some q => rw [mono25 _ _ _ h] at hin5; cases hin5
     rcases h2.opens n hn hl ⟨hk, hin2⟩ with h | h | h
-    · subst h
-      have : g5.inputOf t.apply.head 0 = some s.apply.publisher := by glook [h2.ha.isOpen.2]
-      rw [this] at hin5; cases hin5
+    · subst h; rw [in5_a0] at hin5; cases hin5
     · subst h
       have : g5.inputOf t.train.head 0 = some s.train.publisher := by
-        have : ¬ (t.apply.head = t.train.head) := d1
-        glook [h2.ht.isOpen.2, this]
+        rw [in5, h2.ht.free 0]; simp [nd1]
       rw [this] at hin5; cases hin5
     · subst h
       have : g5.inputOf t.label.head 0 = some s.label.publisher := by
-        have h1' : ¬ (t.apply.head = t.label.head) := d2
-        have h2' : ¬ (t.train.head = t.label.head) := d3
-        glook [h2.hl.isOpen.2, h1', h2']
+        rw [in5, h2.hl.free 0]; simp [nd2, nd3]
       rw [this] at hin5; cases hin5
   · obtain ⟨ts, e, l, m'⟩ := h2.trains
     exact ⟨ts, e, l, by simp only [seqSem]; rw [m']⟩
   · intro n hn hl gid a i o hk
     exact h2.fresh n hn hl gid a i o hk
+  · refine ⟨hw5, ⟨by have := h2.tails_ge.1; show g.next ≤ t.apply.tail; omega,
+      by have := h2.tails_ge.2.1; show g.next ≤ t.train.tail; omega,
+      by have := h2.tails_ge.2.2; show g.next ≤ t.label.tail; omega⟩,
+      ?_, ?_, fun hfull => reT hfull _ (h2.regTail hfull), ?_, ?_⟩
+    · intro n hn hl
+      have := h2.rank n hn hl
+      show W2.h n < r + (g2.next - g.next)
+      omega
+    · intro hfull n hn hre hne
+      have hre2 : Reach g2 t.apply.head n := by
+        rcases split hfull n hre with ⟨h, _⟩ | ⟨_, h⟩
+        · omega
+        · exact h
+      by_cases ha : n = t.apply.head
+      · subst ha
+        refine ⟨h2.ha.live, ?_⟩
+        intro k q hq
+        rw [in5_a k q hq]
+        exact reS _ (h1.regTail hfull)
+      · obtain ⟨l2, i2⟩ := h2.reg hfull n hre2 ha
+        refine ⟨l2, ?_⟩
+        intro k q hq
+        have nt : n ≠ t.train.head := fun e => not_reach_of_no_input h2.ht.free (fun e' => d1 e'.symm) (e ▸ hre2)
+        have nl : n ≠ t.label.head := fun e => not_reach_of_no_input h2.hl.free (fun e' => d2 e'.symm) (e ▸ hre2)
+        rw [in5_other n k ha nt nl] at hq
+        exact reT hfull _ (i2 k q hq)
+    · intro hfull
+      constructor
+      · intro hre
+        have hre' : Reach g5 s.apply.head t.train.tail := hre
+        rcases split hfull _ hre' with ⟨h, _⟩ | ⟨_, h⟩
+        · have := h2.tails_ge.2.1; omega
+        · exact (h2.sep hfull).1 h
+      · intro hre
+        have hre' : Reach g5 s.apply.head t.label.tail := hre
+        rcases split hfull _ hre' with ⟨h, _⟩ | ⟨_, h⟩
+        · have := h2.tails_ge.2.2; omega
+        · exact (h2.sep hfull).2 h
+    · intro hfull u k q hu hq
+      by_cases ha : u = t.apply.head
+      · rw [in5_a k q (ha ▸ hq)]; exact h1.tails_ge.1
+      · by_cases ht' : u = t.train.head
+        · rw [in5_t k q (ht' ▸ hq)]; exact h1.tails_ge.2.1
+        · by_cases hl' : u = t.label.head
+          · rw [in5_l k q (hl' ▸ hq)]; exact h1.tails_ge.2.2
+          · rw [in5_other u k ha ht' hl'] at hq
+            have := h2.closed hfull u k q hu hq
+            omega
 
 end ForML.Compose
